@@ -35,6 +35,8 @@ type Obligation struct {
 	NAssert int
 	NDecl   int
 	NValueQ int
+	hkey    string
+	quickOnly bool
 	Extra   []string // extra assumptions for this obligation only (clause-level lemma use)
 }
 
